@@ -7,6 +7,9 @@ S2 streams
   a2r / r2a     the hand model (`step`) AND the composition of generated leaves (`stepG`) vs the real blocks, cycle by
                 cycle, state + every internal wire: corpus (unit-test scenarios, witnesses), exhaustive (state x input)
                 transitions at small widths, seeded schedules biased to the interesting interleavings
+  variants      the sink adapters (Axi2Reg, Axi2Clk) are built over every AXI4StreamInterface variant (optional TLAST/TKEEP/
+                TSTRB/TUSER/TID/TDEST); the extra inputs are driven with arbitrary values (multi-beat packets included) and
+                are NOT inputs of the Lean model: the real blocks must not depend on them (structure tie + all streams above)
   ports         port names/directions produced by addInterfaceSink/addInterfaceSource vs the model's list
   tkeep         the constructor's tkeep constant vs `R2A.tkeepVal` for a sweep of widths
   oracle        Spec.A2R.check / Spec.R2A.check (the Lean specification, through the driver) on the traces OBSERVED ON THE
@@ -71,11 +74,53 @@ R2A_WIRES = ['inactive', 'handshake', 'ap_start_inactive', 'active_handshake', '
              'tkeep', 'tlast', 'reset_sent', 'reset_active']
 
 
-class RealA2R:
+# interface variants: optional members of AXI4StreamInterface.  V is a bit mask; every optional source->sink member present is
+# an EXTRA INPUT of a sink adapter (Axi2Reg / Axi2Clk), driven with arbitrary values.  createHILVitis builds its input streams
+# with has_tlast=True, has_tkeep=True (V=3): the property quantifies over whatever the peer puts on them.
+V_TLAST, V_TKEEP, V_TSTRB, V_TUSER, V_TID, V_TDEST = 1, 2, 4, 8, 16, 32
+SINK_VARIANTS = [0, 1, 2, 3, 3, 1, 7, 4, 9, 19, 35, 63]
+EXTRA_NAMES = ['tlast', 'tkeep', 'tstrb', 'tuser', 'tid', 'tdest']
+NIN = {'a2r': 5, 'clk': 5, 'r2a': 6}     # inputs the Lean model reads; the rest of an input tuple drives the optional members
+
+
+def make_stream(s, DW, V):
+    from py4hw.logic.bus.axi import AXI4StreamInterface
+    return AXI4StreamInterface(s, 'stream', dw=DW, has_tlast=bool(V & V_TLAST), has_tkeep=bool(V & V_TKEEP),
+                               has_tstrb=bool(V & V_TSTRB), uw=3 if V & V_TUSER else None, iw=2 if V & V_TID else None,
+                               rw=4 if V & V_TDEST else None)
+
+
+def stream_extras(stream):
+    """[(name, wire)] of the optional source->sink members present, in EXTRA_NAMES order"""
+    return [(n, getattr(stream, n)) for n in EXTRA_NAMES if hasattr(stream, n)]
+
+
+def hidden_state(blk):
+    """the value of EVERY register-like child of the real block (name, value): state the observable tuple might not show"""
+    out = []
+    for n, c in blk.dut.children.items():
+        if hasattr(c, 'value') and type(c).__name__ != 'Constant':
+            out.append((n, c.value))
+    return tuple(out)
+
+
+class SinkExtras:
+    """shared by the sink adapters: drive the optional stream members from the tail of the input tuple"""
+
+    def put_extras(self, i):
+        for (n, w), x in zip(self.extras, i[5:]):
+            w.put(x)
+
+    def extra_pokes(self, i):
+        return [('poke', w, x) for (n, w), x in zip(self.extras, i[5:])]
+
+
+class RealA2R(SinkExtras):
     """the real Axi2Reg inside a fresh HWSystem"""
     kind = 'a2r'
 
-    def __init__(self, W, DW):
+    def __init__(self, W, DW, V=0):
+        self.V = V
         import py4hw
         from py4hw.logic.bus.axi import AXI4StreamInterface
         from py4hw.emulation.vitiswrapping import Axi2Reg
@@ -83,7 +128,8 @@ class RealA2R:
         s = self.sys = py4hw.HWSystem()
         self.ap_start, self.ap_reset, self.ap_done = s.wire('ap_start', 1), s.wire('ap_reset', 1), s.wire('ap_done', 1)
         self.q, self.loaded, self.active = s.wire('q', W), s.wire('loaded', 1), s.wire('active', 1)
-        self.stream = AXI4StreamInterface(s, 'stream', dw=DW)
+        self.stream = make_stream(s, DW, V)
+        self.extras = stream_extras(self.stream)
         self.dut = Axi2Reg(s, 'dut', self.ap_start, self.ap_reset, self.ap_done, self.stream, self.q, self.loaded, self.active)
         self.sim = s.getSimulator()
 
@@ -103,20 +149,22 @@ class RealA2R:
     def cycle(self, i):
         self.ap_start.put(i[0]); self.ap_reset.put(i[1]); self.ap_done.put(i[2])
         self.stream.tvalid.put(i[3]); self.stream.tdata.put(i[4])
+        self.put_extras(i)
         self.sim.clk(1)
 
     def poke_ops(self, i):
         return [('poke', self.ap_start, i[0]), ('poke', self.ap_reset, i[1]), ('poke', self.ap_done, i[2]),
-                ('poke', self.stream.tvalid, i[3]), ('poke', self.stream.tdata, i[4]), ('clk', 1)]
+                ('poke', self.stream.tvalid, i[3]), ('poke', self.stream.tdata, i[4])] + self.extra_pokes(i) + [('clk', 1)]
 
 
 class RealR2A:
     kind = 'r2a'
 
-    def __init__(self, W, DW):
+    def __init__(self, W, DW, V=0):
         import py4hw
         from py4hw.logic.bus.axi import AXI4StreamInterface
         from py4hw.emulation.vitiswrapping import Reg2Axi
+        self.V, self.extras = 0, []     # Reg2Axi drives TLAST and TKEEP unconditionally: the interface always has both
         self.W, self.DW, self.KW = W, DW, DW // 8
         s = self.sys = py4hw.HWSystem()
         self.ap_start, self.ap_reset, self.ap_done = s.wire('ap_start', 1), s.wire('ap_reset', 1), s.wire('ap_done', 1)
@@ -153,12 +201,13 @@ class RealR2A:
                 ('clk', 1)]
 
 
-class RealClk:
+class RealClk(SinkExtras):
     """the real Axi2Clk (structural gating + Axi2ClkFSM) inside a fresh HWSystem; W is unused (clk_count is 64 bits)"""
     kind = 'clk'
     CW = 64
 
-    def __init__(self, W, DW):
+    def __init__(self, W, DW, V=0):
+        self.V = V
         import py4hw
         from py4hw.logic.bus.axi import AXI4StreamInterface
         from py4hw.emulation.vitiswrapping import Axi2Clk
@@ -166,7 +215,8 @@ class RealClk:
         s = self.sys = py4hw.HWSystem()
         self.ap_start, self.ap_reset, self.ap_done = s.wire('ap_start', 1), s.wire('ap_reset', 1), s.wire('ap_done', 1)
         self.clk_out, self.load_outs, self.active = s.wire('clk_out', 1), s.wire('load_outs', 1), s.wire('active', 1)
-        self.stream = AXI4StreamInterface(s, 'stream', dw=DW)
+        self.stream = make_stream(s, DW, V)
+        self.extras = stream_extras(self.stream)
         self.dut = Axi2Clk(s, 'dut', self.ap_start, self.ap_reset, self.ap_done, self.stream, self.clk_out, self.load_outs, self.active)
         self.fsm = self.dut.children['clk_count']
         self.sim = s.getSimulator()
@@ -187,20 +237,55 @@ class RealClk:
     def cycle(self, i):
         self.ap_start.put(i[0]); self.ap_reset.put(i[1]); self.ap_done.put(i[2])
         self.stream.tvalid.put(i[3]); self.stream.tdata.put(i[4])
+        self.put_extras(i)
         self.sim.clk(1)
 
     def poke_ops(self, i):
         return [('poke', self.ap_start, i[0]), ('poke', self.ap_reset, i[1]), ('poke', self.ap_done, i[2]),
-                ('poke', self.stream.tvalid, i[3]), ('poke', self.stream.tdata, i[4]), ('clk', 1)]
+                ('poke', self.stream.tvalid, i[3]), ('poke', self.stream.tdata, i[4])] + self.extra_pokes(i) + [('clk', 1)]
 
 
+MODEL_REGS = {'a2r': ['active', 'loaded', 'reg_data'], 'r2a': ['active', 'sent', 'tdata_ext', 'tvalid'], 'clk': ['active']}
 KINDS = {'a2r': ('Axi2Reg', RealA2R), 'r2a': ('Reg2Axi', RealR2A), 'clk': ('Axi2Clk', RealClk)}
 BLOCK2KIND = {v[0]: k for k, v in KINDS.items()}
 BLOCK2KIND.update({k: k for k in KINDS})
 
 
-def make(kind, W, DW):
-    return KINDS[kind][1](W, DW)
+def make(kind, W, DW, V=0):
+    return KINDS[kind][1](W, DW, V)
+
+
+def with_extras(rng, blk, it):
+    """append values for the optional stream members to every input tuple of a sink adapter's schedule.  TLAST follows a
+    per-schedule pattern: single-beat packets, one endless packet, multi-beat packets (TLAST=0 beats followed by further
+    beats), random; the byte qualifiers and side-band members take arbitrary values (all-ones / zero / random)"""
+    if not blk.extras:
+        for i in it:
+            yield i
+        return
+    mode = rng.choice(['packets', 'packets', 'random', 'always0', 'always1', 'long'])
+    left = rng.randint(0, 4)
+    for i in it:
+        xs = []
+        for n, w in blk.extras:
+            wd = w.getWidth()
+            if n == 'tlast':
+                if mode == 'always0':
+                    x = 0
+                elif mode == 'always1':
+                    x = 1
+                elif mode == 'random':
+                    x = rng.randint(0, 1)
+                elif mode == 'long':
+                    x = 1 if rng.chance(1, 12) else 0
+                else:       # counted packets: TLAST on the last of 1..5 TRANSFERRED beats
+                    x = 1 if left == 0 else 0
+                    if i[3] == 1 and blk.stream.tready.get() == 1:
+                        left = rng.randint(0, 4) if left == 0 else left - 1
+            else:
+                x = rng.choice([(1 << wd) - 1, 0, rng.bits(wd), rng.bits(wd)])
+            xs.append(x)
+        yield tuple(i) + tuple(xs)
 
 
 # ------------------------------------------------------------------------------------------------ schedules
@@ -369,9 +454,9 @@ class Batch:
         self.res = res
         self.lines, self.jobs = [], []
 
-    def run_real(self, kind, W, DW, cycles, label, init_path=()):
+    def run_real(self, kind, W, DW, cycles, label, init_path=(), V=0):
         """cycles: list of input tuples or a generator factory f(blk) -> iterator. runs the real block NOW."""
-        blk = make(kind, W, DW)
+        blk = self.last_blk = make(kind, W, DW, V)
         o_init, pre = blk.obs(), []
         for i in init_path:
             blk.cycle(i)
@@ -385,22 +470,28 @@ class Batch:
             ins.append(i)
             rows.append(blk.state() + blk.wires())
             obs.append(blk.obs())
-        self.add(kind, blk.cfg(), s0, o0, ins, rows, obs, label, W, DW, list(init_path), o_init, pre)
+        self.add(kind, blk.cfg(), s0, o0, ins, rows, obs, label, W, DW, list(init_path), o_init, pre, blk.V,
+                 [n for n, w in blk.extras])
         return ins, rows, obs
 
-    def add(self, kind, cfg, s0, o0, ins, rows, obs, label, W, DW, init_path, o_init, pre):
+    def add(self, kind, cfg, s0, o0, ins, rows, obs, label, W, DW, init_path, o_init, pre, V=0, extras=()):
         if not ins:
             return
-        cyc = ';'.join(','.join(str(x) for x in i) for i in ins)
+        # the Lean model (and the specification) read the first NIN inputs only: the optional stream members are not inputs of
+        # Axi.*.step.  The real block is driven with ALL of them; any dependence on them shows as a model / oracle failure
+        k = NIN[kind]
+        cyc = ';'.join(','.join(str(x) for x in i[:k]) for i in ins)
         st = ','.join(str(x) for x in s0)
         j = dict(kind=kind, W=W, DW=DW, ins=ins, rows=rows, obs=obs, label=label, at=len(self.lines), init_path=init_path,
-                 s0=s0, o0=o0, npre=len(pre))
+                 s0=s0, o0=o0, npre=len(pre), V=V, extras=list(extras))
+        pre = [(tuple(i[:k]), o) for i, o in pre]
+        core = [tuple(i[:k]) for i in ins]
         self.lines.append(f'{kind}|{cfg}|{st}|{cyc}')
         self.lines.append(f'{kind}G|{cfg}|{st}|{cyc}')
         # the oracle always judges the whole history since power-up (its monitors start there)
-        oc = ';'.join(','.join(str(x) for x in list(i) + o) for i, o in pre + list(zip(ins, obs)))
+        oc = ';'.join(','.join(str(x) for x in list(i) + o) for i, o in pre + list(zip(core, obs)))
         ost = ','.join(str(x) for x in o_init)
-        tr = pre + list(zip(ins, obs))
+        tr = pre + list(zip(core, obs))
         if kind == 'a2r':
             self.lines.append(f'oa2r|{W}|{ost}|{oc}')
             j['py_verdicts'] = [py_oracle_a2r(W, o_init, tr)]
@@ -539,6 +630,8 @@ def events(j):
     pre = j['o0']
     prev_x = False
     prev_data, busy_guess = None, False
+    ti = j.get('extras', []).index('tlast') + 5 if 'tlast' in j.get('extras', []) else None
+    in_pkt = False        # a beat with TLAST=0 was transferred and no TLAST=1 beat / clear since
     for i, o, row in zip(j['ins'], j['obs'], j['rows']):
         if kind == 'clk':
             clk_out, load_outs, active, tready = pre
@@ -562,6 +655,14 @@ def events(j):
                      ('start_while_active', i[0] == 1 and active == 1), ('reset', i[1] == 1), ('done', i[2] == 1),
                      ('reset_during_xfer', i[1] == 1 and x), ('done_during_xfer', i[2] == 1 and x),
                      ('done_before_loaded', i[2] == 1 and loaded == 0), ('truncating_data', i[4] >= (1 << j['W']))]
+            if ti is not None:
+                names += [('xfer_tlast0', x and i[ti] == 0), ('xfer_tlast1', x and i[ti] == 1),
+                          ('xfer_inside_packet', x and in_pkt), ('xfer_inside_packet_new_data', x and in_pkt and i[4] % (1 << j['W']) != q),
+                          ('clear_inside_packet', in_pkt and (i[1] == 1 or i[2] == 1 or (i[0] == 1 and active == 0)))]
+                if i[1] == 1 or i[2] == 1 or (i[0] == 1 and active == 0):
+                    in_pkt = False
+                elif x:
+                    in_pkt = i[ti] == 0
             prev_x = x
         else:
             tvalid, tdata, tlast, tkeep, sent, active = pre
@@ -587,11 +688,13 @@ def analyse(res, j, out):
     for n, c in ev.items():
         res.hist(kind + '_events', n, c)
     res.hist(kind + '_widths', f"W{j['W']}_DW{j['DW']}")
-    res.count((kind, j['W'], j['DW'], tuple(j['init_path']), tuple(j['ins'])), hist={kind + '_stream': j['label'].split(':')[0]})
+    if kind != 'r2a':
+        res.hist(kind + '_interface_variant', '+'.join(j['extras']) or 'plain')
+    res.count((kind, j['W'], j['DW'], j['V'], tuple(j['init_path']), tuple(j['ins'])), hist={kind + '_stream': j['label'].split(':')[0]})
     res.cov['cycles'] = res.cov.get('cycles', 0) + len(j['ins'])
-    replay = dict(block=KINDS[kind][0], W=j['W'], DW=j['DW'], init_path=j['init_path'],
+    replay = dict(block=KINDS[kind][0], W=j['W'], DW=j['DW'], V=j['V'], stream_members=j['extras'], init_path=j['init_path'],
                   cycles=[list(i) for i in j['ins']], label=j['label'],
-                  inputs='start,reset,done,load_outs,reg_in,tready' if kind == 'r2a' else 'start,reset,done,tvalid,tdata',
+                  inputs='start,reset,done,load_outs,reg_in,tready' if kind == 'r2a' else ','.join(['start,reset,done,tvalid,tdata'] + j['extras']),
                   done_while_pending=bool(ev.get('done_while_pending')))
     if out is None:
         out = [None, None] + j['py_verdicts']   # Lean side unavailable: judge with the transcription of the oracle
@@ -639,20 +742,31 @@ def corpus_stream(res, b):
             continue
         for k, sc in enumerate(doc.get('scenarios', [])):
             kind = BLOCK2KIND[sc['block']]
-            b.run_real(kind, sc['W'], sc['DW'], [tuple(c) for c in sc['cycles']], f"corpus:{os.path.basename(f)}:{sc.get('name', k)}")
+            b.run_real(kind, sc['W'], sc['DW'], [tuple(c) for c in sc['cycles']], f"corpus:{os.path.basename(f)}:{sc.get('name', k)}",
+                       V=sc.get('V', 0))
             n += 1
     return n
 
 
-def exhaustive_stream(res, b, kind, W, DW, data_vals, max_states=64):
+def exhaustive_stream(res, b, kind, W, DW, data_vals, max_states=64, V=0):
     """every (reachable state, input) transition of the real block at this width, reached by replaying a path on a
-    fresh instance; the model is started from the observed state"""
+    fresh instance; the model is started from the observed state.  A state is identified by the observable tuple AND the
+    value of every register-like child of the real block (hidden_state), so state the model does not have is explored too.
+    With interface variant V, TLAST takes both values in every input; the byte qualifiers alternate all-ones / zero"""
     if kind in ('a2r', 'clk'):
         inputs = [(s, r, d, v, x) for s in (0, 1) for r in (0, 1) for d in (0, 1) for v in (0, 1) for x in data_vals]
+        ex = make(kind, W, DW, V).extras
+        for n, w in ex:
+            vals = (0, 1) if n == 'tlast' else None
+            if vals:
+                inputs = [i + (y,) for i in inputs for y in vals]
+            else:
+                full = (1 << w.getWidth()) - 1
+                inputs = [i + ((full, 0, 1)[(sum(i[:5]) + k) % 3] & full,) for k, i in enumerate(inputs)]
     else:
         inputs = [(s, r, d, l, x, y) for s in (0, 1) for r in (0, 1) for d in (0, 1) for l in (0, 1) for x in data_vals for y in (0, 1)]
-    blk = make(kind, W, DW)
-    seen = {tuple(blk.state()): ()}
+    blk = make(kind, W, DW, V)
+    seen = {tuple(blk.state()) + hidden_state(blk): ()}
     state_of = {(): tuple(blk.state())}
     todo, deferred = [()], []
     n = 0
@@ -668,19 +782,21 @@ def exhaustive_stream(res, b, kind, W, DW, data_vals, max_states=64):
             continue
         path = todo.pop(0)
         for i in inputs:
-            ins, rows, obs = b.run_real(kind, W, DW, [i], f'exhaustive:{kind}:W{W}', init_path=path)
+            ins, rows, obs = b.run_real(kind, W, DW, [i], f'exhaustive:{kind}:W{W}', init_path=path, V=V)
             n += 1
-            st = tuple(rows[0][:nst])
+            vis = tuple(rows[0][:nst])
+            st = vis + hidden_state(b.last_blk)
             if st not in seen and len(seen) < max_states:
                 # prefer paths on which done is only pulsed with the loaded / sent flag up: the oracle judges the whole history
                 # since power-up and stops where the property's assumption is violated
                 if flag is not None and i[2] == 1 and state_of[path][flag] != 1:
                     deferred.append((path + (i,), st))
                     continue
-                seen[st], state_of[path + (i,)] = path + (i,), st
+                seen[st], state_of[path + (i,)] = path + (i,), vis
                 todo.append(path + (i,))
-    res.hist('exhaustive_states', f'{kind}_W{W}_DW{DW}', len(seen))
-    res.hist('exhaustive_transitions', f'{kind}_W{W}_DW{DW}', n)
+    tag = f'{kind}_W{W}_DW{DW}' + (f'_V{V}' if V else '')
+    res.hist('exhaustive_states', tag, len(seen))
+    res.hist('exhaustive_transitions', tag, n)
 
 
 def random_stream(res, b, rng, kind, n_sched, max_len, widths):
@@ -692,9 +808,12 @@ def random_stream(res, b, rng, kind, n_sched, max_len, widths):
         style = STYLES[kind][k % len(STYLES[kind])]
         n = r.randint(4, max_len)
         gen = gen_clk if kind == 'clk' else gen_a2r if kind == 'a2r' else (gen_r2a_pending_done if style == 'pending_done' else gen_r2a)
-        ins, rows, obs = b.run_real(kind, W, DW, lambda blk: gen(r, blk, n, style), f'random-{style}:{k}')
+        # sink adapters: every interface variant (optional members present / absent), extras driven by a forked rng
+        V = r.fork('variant').choice(SINK_VARIANTS) if kind != 'r2a' else 0
+        ins, rows, obs = b.run_real(kind, W, DW, lambda blk: with_extras(r.fork('extras'), blk, gen(r, blk, n, style)),
+                                    f'random-{style}:{k}', V=V)
         if k < 2:
-            res.sample(dict(block=kind, W=W, DW=DW, style=style, cycles=[list(i) for i in ins[:12]],
+            res.sample(dict(block=kind, W=W, DW=DW, V=V, style=style, cycles=[list(i) for i in ins[:12]],
                             observed=[o for o in obs[:12]]))
         if len(b.jobs) >= 6000:
             b.flush()
@@ -711,11 +830,18 @@ def ports_stream(res, b):
             if ins != mi or outs != mo:
                 res.disagree('ports', dict(block=kind, python_in=ins, python_out=outs, model_in=mi, model_out=mo))
     b.add_raw(['ports|a2r', 'ports|r2a', 'ports|clk'], model_side)
-    for kind in ('a2r', 'r2a', 'clk'):
-        blk = make(kind, 8, 16)
+    for kind, V in [(k, 0) for k in ('a2r', 'r2a', 'clk')] + [(k, v) for k in ('a2r', 'clk') for v in sorted(set(SINK_VARIANTS)) if v]:
+        blk = make(kind, 8, 16, V)
         ins = [p.name for p in blk.dut.inPorts]
         outs = [p.name for p in blk.dut.outPorts]
-        res.count(('ports', kind))
+        res.count(('ports', kind, V))
+        # structure: the model's state is ALL the state.  The register-like children of the real block are the same for every
+        # interface variant (the adapters do not look at the optional members)
+        regs = sorted(n for n, v in hidden_state(blk))
+        if regs != MODEL_REGS[kind]:
+            res.disagree(f'{kind}-structure', dict(block=KINDS[kind][0], W=8, DW=16, V=V, stream_members=[n for n, w in blk.extras],
+                                                   registers=regs, model_registers=MODEL_REGS[kind],
+                                                   what='the real block has state elements the model does not have'))
         # the oracle on the real thing: the stream's source->sink wires are inputs of a sink and outputs of a source
         st = blk.stream
         s2s = [n for n, w in st.sourceToSink]
@@ -753,16 +879,17 @@ def net_stream(res, rng, n):
         kind = ('a2r', 'r2a', 'clk')[k % 3]
         DW = r.choice([8, 16, 64])
         W = r.choice([1, 5, DW, DW + 3])
-        blk = make(kind, W, DW)
+        V = r.fork('variant').choice(SINK_VARIANTS) if kind != 'r2a' else 0
+        blk = make(kind, W, DW, V)
         gen = {'a2r': gen_a2r, 'r2a': gen_r2a, 'clk': gen_clk}[kind]
         ops = []
         # NetBatch executes the ops itself: use a twin block to drive the adaptive generator
-        twin = make(kind, W, DW)
-        for i in gen(r, twin, r.randint(5, 25), 'any'):
+        twin = make(kind, W, DW, V)
+        for i in with_extras(r.fork('extras'), twin, gen(r, twin, r.randint(5, 25), 'any')):
             twin.cycle(i)
             ops += blk.poke_ops(i)
         try:
-            nb.add(blk.sys, ops, sim=blk.sim, label=f'{kind}-W{W}-DW{DW}')
+            nb.add(blk.sys, ops, sim=blk.sim, label=f'{kind}-W{W}-DW{DW}-V{V}')
             res.count(('net', k))
         except D.NotDumpable as e:
             res.broken.append(('correspondence', 'net-sim', f'leaf class not translated: {e}'))
@@ -802,7 +929,7 @@ def main(res, tier, rng, replay):
             r = f['replay']
             if 'cycles' in r and 'block' in r and 'DW' in r:
                 b.run_real(BLOCK2KIND[r['block']], r['W'], r['DW'], [tuple(c) for c in r['cycles']],
-                           'replay:0', init_path=tuple(tuple(c) for c in r.get('init_path', [])))
+                           'replay:0', init_path=tuple(tuple(c) for c in r.get('init_path', [])), V=r.get('V', 0))
     corpus_stream(res, b)
     ports_stream(res, b)
     tkeep_stream(res, b, tier)
@@ -810,6 +937,11 @@ def main(res, tier, rng, replay):
     for W in ([1, 2] if quick else [1, 2, 3]):
         exhaustive_stream(res, b, 'a2r', W, 8, list(range(1 << W)) + [1 << W, 255, 254])
         exhaustive_stream(res, b, 'r2a', W, 8, list(range(1 << W)))
+    # Axi2Reg over the interface variants: TLAST takes both values in every (state, input) pair (multi-beat packets: a TLAST=0
+    # beat followed by further beats), with and without the byte qualifiers
+    for W, V in ([(1, 1), (2, 3)] if quick else [(1, 1), (2, 1), (2, 3), (1, 7), (3, 3)]):
+        exhaustive_stream(res, b, 'a2r', W, 8, list(range(1 << W)) + [1 << W, 255], V=V)
+    exhaustive_stream(res, b, 'clk', 1, 8, [0, 1, 2, 3] if quick else [0, 1, 2, 3, 4, 255], max_states=24 if quick else 80, V=3)
     # register wider than the stream (truncation on the way out / zero extension on the way in)
     exhaustive_stream(res, b, 'r2a', 9 if quick else 10, 8, [0, 1, 255, 256, 511])
     # Axi2Clk: every (FSM state, count, target) reached with beats 0..3 x every input with TDATA 0..4 (changing TDATA included)
@@ -829,7 +961,9 @@ def main(res, tier, rng, replay):
                        'with Axi.*.step and with the composition of generated leaves Axi.*.stepG, and judged by the Lean oracle '
                        'Spec.*.check on the observed outputs; distinct = distinct (block, W, DW, path, schedule). exhaustive: every '
                        '(reachable state, input) pair at W in {1,2[,3]}; random: adaptive seeded schedules in styles '
-                       'quiet/literal/any/storm with back-pressure patterns, bursts, load while pending, reset/done mid-transfer '
+                       'quiet/literal/any/storm, sink adapters over every AXI4StreamInterface variant (TLAST/TKEEP/TSTRB/TUSER/TID/TDEST '
+                       'present or absent; TLAST patterns single-beat / multi-beat / endless packets, see a2r_interface_variant and the '
+                       'xfer_inside_packet events), with back-pressure patterns, bursts, load while pending, reset/done mid-transfer '
                        '(event histograms a2r_events / r2a_events count the interleavings actually hit)')
     res.assumptions += ['control wires (ap_start, ap_reset, ap_done, load_outs, loaded, sent, active) are 1 bit wide, as in createHILVitis and the unit tests',
                         'model state = register output wires (Reg.value masked by its q wire); exact because the hold branch re-prepares the same value',
